@@ -6,6 +6,7 @@ import DisjointImpls.Sexpr
 import DisjointImpls.Match
 import DisjointImpls.RevSub
 import DisjointImpls.Key
+import DisjointImpls.Bounds
 open DI
 
 def rToSx : R → Sx
@@ -43,6 +44,18 @@ def handle (cmd : String) (args : List Sx) : Sx :=
       .list [.sym "tb", b3ToSx (tbEq p q), b3ToSx (tbEq q p),
         boolSx (decide (keyOf p = keyOf q)), boolSx (decide (hashFeed p = hashFeed q)),
         (tbTokens p).toSx, (tbTokens q).toSx]
+  | "bounds", [item] =>
+      let g := (implGenerics item).getD (.node "?" [] [])
+      .list ((findBounds g).map (fun b => .list [b.bounded.toSx, b.tr.toSx,
+        .list (b.binds.map (fun (n, t) => .list [.str n, t.toSx])), boolSx b.maybe]))
+  | "family", gid :: keys :: rows :: mainImpl :: members =>
+      let F := mkFamily gid keys rows mainImpl members
+      .list [.sym "family", boolSx (keysOverHeaderB F), .sym (toString F.keys.length),
+        .list (F.members.map (fun m => .list [boolSx (memberOK F m), boolSx (thetaCoversB F m), boolSx (sizedCompatB F m),
+          boolSx (inst m.θ F.hdr == m.blk.hdr), boolSx (m.row.length == F.keys.length),
+          .list ((List.zip F.keys m.row).map (fun kr => boolSx (clauseFor m kr.1 kr.2))),
+          Subst.toSx m.θ])),
+        .list (F.sizedParams.map Sx.str)]
   | _, _ => .list [.sym "bad-request", .str cmd]
 
 partial def loop (h : IO.FS.Stream) (out : IO.FS.Stream) : IO Unit := do
